@@ -8,22 +8,11 @@ THEOREMS = ["Slock.C20." + t for t in (
     "deque_run deque_run_from_new "
     # partial (concrete instance only) and witnesses of non-refinement
     "deque_maintenance_partial pushLeft_refuses_at_origin shrink_breaks_len "
-    "restructuring_with_spare_node_breaks_push long_restructuring_then_push_panics "
+    "restructuring_with_spare_node_breaks_push long_restructuring_then_push_ok long_restructuring_spare_node_ok "
     # lock.go containers
     "ring_refines_fifo prio_refines_stable_priority_queue stable_insert_spec holder_push holder_pop_observers "
     "wait_push_fifo wait_push_prio wait_pop_observers wait_repush containers_new holder_wait_sequences_partial").split()]
 
-# Monitor signatures of divergences found on the UNCHANGED tree that are reported but not (yet) triaged into
-# /verif/known_findings.json by the main session.  They are printed as KNOWN-FINDING lines on every run and do not
-# fail the check; everything else the monitor reports does.  Move an entry to known_findings.json (or fix /repo and
-# update the model) to retire it.
-PENDING_FINDINGS = {
-    "long:restructure-keeps-nodeIndex":
-        "db.go restructuringLong{TimeOut,Expried}Queue frees trailing nodes of a LongWaitLockQueue without `nodeIndex--`; "
-        "after the queue empties, Reset reads queueSize = nodeQueueSizes[nodeIndex] = 0 and a later Push panics (index out of "
-        "range on a zero-length node); nodeIndex also drifts past len(queues) (Reset panics). Lean witness: "
-        "Slock.C20.long_restructuring_then_push_panics",
-}
 FINISH = {"level": "proof", "assumptions": [
     "element counts stay below 2^31 (int32 overflow of Len is not modelled) and allocation never fails",
     "constructor parameters from 1 up (baseNodeSize = 0 is outside the modelled domain and reported as `unmodelled`)"]}
@@ -37,18 +26,6 @@ def read_monitor(ctx, outdir, mode):
             line = line.strip()
             if line:
                 m = json.loads(line)
-                if m["signature"] in PENDING_FINDINGS and not any(
-                        k["property"] == ctx.prop and k["signature"] == m["signature"] for k in ctx.load_known().get("findings", [])):
-                    if m["signature"] not in [x["signature"] for x in ctx.known]:
-                        ctx.known.append({"signature": m["signature"], "what": "(pending triage) " + PENDING_FINDINGS[m["signature"]],
-                                          "replay": m["replay"]})
-                        ctx.cov.setdefault("pending_findings", []).append(
-                            {"signature": m["signature"], "what": PENDING_FINDINGS[m["signature"]], "first_replay": m["replay"], "seen": m["what"]})
-                        # vlib prints KNOWN-FINDING only for entries of known_findings.json; a pending one must not pass silently
-                        print(f"PENDING-FINDING: property={ctx.prop} [{m['signature']}] {PENDING_FINDINGS[m['signature']]} "
-                              f"(reproduced in this run: {m['what']})", flush=True)
-                    n += 1
-                    continue
                 ctx.add_violation(m["what"], m["signature"], m["replay"])
                 n += 1
     return n
